@@ -10,14 +10,19 @@
   that follow are delivered intact - from the first one when start and stop
   markers differ, from the second at the latest when they coincide."
 -/
-import IgrisModel.C05.LemmasOvf
+import IgrisModel.C05.LemmasBuf
 namespace Igris.Gstuff
 open Igris.Proto Igris.C17
 
 /-! ### memory safety -/
 
 /-- never more than capacity-1 bytes in the line, in every reachable state,
-for every alphabet (well-formed or not), stream and capacity -/
+for every alphabet (well-formed or not), stream and capacity.  (List-level model,
+`cap : Nat`.  For capacity 0 the statement says "nothing is ever stored"; since
+`fix: sline_putchar refuses when the line has no buffer` that is what the code
+does too — before it the unsigned `cap - 1` wrapped and the code stored without
+bound, see `sline_putchar_cap0_witness`.  The statement about the C object itself,
+32-bit counters and buffer indices included, is `recv_never_faults`.) -/
 theorem recv_bounds (ctx : Ctx) (cap : Nat) (bs : List Byte) :
     (feed ctx (Recv.init cap) bs).1.line.length ≤ cap - 1 ∧ (feed ctx (Recv.init cap) bs).1.cap = cap := by
   have h := feed_lineOK ctx (Recv.init cap) bs (by simp [LineOK, Recv.init])
@@ -42,6 +47,68 @@ theorem recv_write_indices (ctx : Ctx) (cap : Nat) (hcap : 1 ≤ cap) (bs : List
   intro hgrow
   simp only [LineOK, hcap', hb.2] at hn
   omega
+
+/-! ### memory safety at the level of the C line object (C04/Buf.lean) -/
+
+/-- MEMORY SAFETY, buffer level.  The receiver is given a memory block `buf` and
+told it has `cap` bytes (`init(buf, cap)`; the block may be larger — the bytes
+from index `cap` on then stand for the memory BEHIND the buffer).  For every
+alphabet, every declared capacity (0 included, 32-bit unsigned) and every
+stream: no call ever faults (no `buf[i]`, no `memmove` outside the block);
+statuses, state, CRC and line bytes are those of the list-level receiver (so
+every other theorem of this file speaks about this object); afterwards
+`cursor = len ≤ cap - 1` (the `memmove` branches of `sline_putchar` /
+`sline_backspace` are never taken); and no byte at an index ≥ `cap` was modified. -/
+theorem recv_never_faults (ctx : Ctx) (buf : List Byte) (cap : BitVec 32)
+    (hblk : cap.toNat ≤ buf.length) (bs : List Byte) :
+    ∃ r', bfeed ctx (BRecv.init buf cap) bs = some (r', (feed ctx (Recv.init cap.toNat) bs).2) ∧
+      r'.abs = (feed ctx (Recv.init cap.toNat) bs).1 ∧
+      r'.line.cursor = r'.line.len ∧ r'.line.len.toNat ≤ cap.toNat - 1 ∧ r'.line.cap = cap ∧
+      r'.line.buf.length = buf.length ∧ r'.line.buf.drop cap.toNat = buf.drop cap.toNat := by
+  have hok : SlineOK (BRecv.init buf cap).line := ⟨rfl, hblk, by simp [BRecv.init, Sline.init]⟩
+  obtain ⟨r', e1, e2, e3, e4, e5, e6⟩ := bfeed_refines ctx (BRecv.init buf cap) hok bs
+  have habs : (BRecv.init buf cap).abs = Recv.init cap.toNat := by
+    simp [BRecv.abs, BRecv.init, Sline.init, Sline.bytes, Recv.init]
+  rw [habs] at e1 e2
+  have hc : r'.line.cap = cap := e4
+  exact ⟨r', e1, e2, e3.cur, by have := e3.bound; rw [hc] at this; exact this, hc, e5, e6⟩
+
+/-- the same for `gstuff_autorecv(ctx)` used WITHOUT `setbuf` (buf = NULL, cap = 0):
+no call faults and nothing is ever stored -/
+theorem recv_nobuf_never_faults (ctx : Ctx) (bs : List Byte) :
+    ∃ r', bfeed ctx BRecv.noBuf bs = some (r', (feed ctx ⟨.s0, 0#8, [], 0⟩ bs).2) ∧
+      r'.line.len = 0 ∧ r'.line.buf = [] := by
+  have hok : SlineOK BRecv.noBuf.line := ⟨rfl, by simp [BRecv.noBuf], by simp [BRecv.noBuf]⟩
+  obtain ⟨r', e1, _, e3, e4, e5, _⟩ := bfeed_refines ctx BRecv.noBuf hok bs
+  refine ⟨r', e1, ?_, ?_⟩
+  · have := e3.bound
+    rw [e4] at this
+    exact BitVec.eq_of_toNat_eq (by simpa [BRecv.noBuf] using this)
+  · exact List.eq_nil_of_length_eq_zero (by simpa [BRecv.noBuf] using e5)
+
+/-- reading the packet (`cstr()`: terminator `buf[len] = 0`, then `size()` bytes)
+never faults after any stream when the capacity is at least 1, and returns the line;
+with it, the trace the DRIVER computes on the buffer-level model is the list-level trace -/
+theorem recv_trace_never_faults (ctx : Ctx) (buf : List Byte) (cap : BitVec 32)
+    (hcap : 1 ≤ cap.toNat) (hblk : cap.toNat ≤ buf.length) (bs : List Byte) :
+    bfeedTrace ctx (BRecv.init buf cap) bs = some (feedTrace ctx (Recv.init cap.toNat) bs) := by
+  have hok : SlineOK (BRecv.init buf cap).line := ⟨rfl, hblk, by simp [BRecv.init, Sline.init]⟩
+  have habs : (BRecv.init buf cap).abs = Recv.init cap.toNat := by
+    simp [BRecv.abs, BRecv.init, Sline.init, Sline.bytes, Recv.init]
+  rw [← habs]
+  exact bfeedTrace_eq ctx _ hok hcap bs
+
+-- non-vacuity: an 8-byte block declared as 8 bytes
+example : (1 : Nat) ≤ (8#32).toNat ∧ (8#32).toNat ≤ (List.replicate 8 (0xA5#8)).length := by decide
+
+/-- witness for the repaired defect C05-capacity-zero-unsigned-wrap: with the old
+guard `len >= cap - 1` a line without a buffer (cap 0) did not refuse — the store
+`buf[0]` faults (NULL / zero-sized block), and with memory behind the pointer it
+stored with no bound; the repaired guard `len + 1 >= cap` refuses -/
+theorem sline_putchar_cap0_witness :
+    (Sline.init [] 0).putcharOld 0x41#8 = none ∧
+    (Sline.init [0xA5#8, 0xA5#8] 0).putcharOld 0x41#8 = some (⟨[0x41#8, 0xA5#8], 0, 1, 1⟩, true) ∧
+    (Sline.init [] 0).putchar 0x41#8 = some (Sline.init [] 0, false) := by decide
 
 /-! ### soundness of every delivered packet -/
 
@@ -206,12 +273,42 @@ theorem resync_v0_example :
 
 /-! ### legacy receiver (gstuff_autorecv_newchar_v1) -/
 
+/-- legacy receiver: never more than capacity-1 bytes in the line (every stream, every
+capacity; capacity 0: nothing is stored — see the remark at `recv_bounds`) -/
 theorem legacy_bounds (cap : Nat) (bs : List Byte) :
     (lfeed (LRecv.init cap) bs).1.line.length ≤ cap - 1 ∧ (lfeed (LRecv.init cap) bs).1.cap = cap := by
   have h := lfeed_lineOK (LRecv.init cap) bs (by simp [LLineOK, LRecv.init])
   have hc := lfeed_cap (LRecv.init cap) bs
   simp only [LLineOK, hc] at h
   exact ⟨h, hc⟩
+
+/-- legacy receiver, buffer level (`gstuff_autorecv_setbuf_v1(buf, cap)`): as
+`recv_never_faults` — no fault for any declared capacity and stream, refinement of
+the list-level legacy receiver, `cursor = len ≤ cap - 1`, memory from index `cap`
+on untouched -/
+theorem legacy_never_faults (buf : List Byte) (cap : BitVec 32) (hblk : cap.toNat ≤ buf.length)
+    (bs : List Byte) :
+    ∃ r', blfeed (BLRecv.init buf cap) bs = some (r', (lfeed (LRecv.init cap.toNat) bs).2) ∧
+      r'.abs = (lfeed (LRecv.init cap.toNat) bs).1 ∧
+      r'.line.cursor = r'.line.len ∧ r'.line.len.toNat ≤ cap.toNat - 1 ∧ r'.line.cap = cap ∧
+      r'.line.buf.length = buf.length ∧ r'.line.buf.drop cap.toNat = buf.drop cap.toNat := by
+  have hok : SlineOK (BLRecv.init buf cap).line := ⟨rfl, hblk, by simp [BLRecv.init, Sline.init]⟩
+  obtain ⟨r', e1, e2, e3, e4, e5, e6⟩ := blfeed_refines (BLRecv.init buf cap) hok bs
+  have habs : (BLRecv.init buf cap).abs = LRecv.init cap.toNat := by
+    simp [BLRecv.abs, BLRecv.init, Sline.init, Sline.bytes, LRecv.init]
+  rw [habs] at e1 e2
+  have hc : r'.line.cap = cap := e4
+  exact ⟨r', e1, e2, e3.cur, by have := e3.bound; rw [hc] at this; exact this, hc, e5, e6⟩
+
+/-- the legacy trace the driver computes (with `sline_getline` at every NEWPACKAGE) never faults -/
+theorem legacy_trace_never_faults (buf : List Byte) (cap : BitVec 32)
+    (hcap : 1 ≤ cap.toNat) (hblk : cap.toNat ≤ buf.length) (bs : List Byte) :
+    blfeedTrace (BLRecv.init buf cap) bs = some (lfeedTrace (LRecv.init cap.toNat) bs) := by
+  have hok : SlineOK (BLRecv.init buf cap).line := ⟨rfl, hblk, by simp [BLRecv.init, Sline.init]⟩
+  have habs : (BLRecv.init buf cap).abs = LRecv.init cap.toNat := by
+    simp [BLRecv.abs, BLRecv.init, Sline.init, Sline.bytes, LRecv.init]
+  rw [← habs]
+  exact blfeedTrace_eq _ hok hcap bs
 
 /-- Legacy resynchronisation (start = stop = AC): after ANY garbage prefix `g`
 and the first frame `p₁`, every following frame is delivered intact and in
